@@ -31,6 +31,9 @@ HARNESSES = [
     H('subnet_mask', 'subnet.cpp', 'h_subnet_mask', variants=triples(TQ), tvariants=triples(TALL), unwind=20,
       functions=['CSubNet::CSubNet(const CNetAddr&, const CNetAddr&)', 'NetmaskBits', 'operator==(CSubNet)', 'operator<(CSubNet)'],
       bounds='all triples (address, mask, probe) of 16-byte legacy addresses', **COMMON),
+    H('subnet_order', 'subnet.cpp', 'h_subnet_order', variants=pairs([(V4, V4), (V6, V6), (V4, V6)]), tvariants=pairs(ALL), unwind=20,
+      functions=['operator<(CSubNet)', 'operator==(CSubNet)', 'operator<(CNetAddr)', 'operator==(CNetAddr)', 'CSubNet::CSubNet(const CNetAddr&, uint8_t)'],
+      bounds='all triples of CIDR subnets (16-byte legacy addresses by class, all 256 prefix lengths each): irreflexive, asymmetric, transitive, transitive incomparability, unordered iff equal for valid subnets', **COMMON),
     H('subnet_single', 'subnet.cpp', 'h_subnet_single', variants=pairs([(V4, V4), (V6, V6), (INT, INT)]) + OVL, tvariants=pairs(ALL) + OVL, unwind=36,
       functions=['CSubNet::CSubNet(const CNetAddr&)', 'CNetAddr::UnserializeV2Stream', 'operator==(CNetAddr)'],
       bounds='all pairs of addresses of each network', **COMMON),
